@@ -495,8 +495,7 @@ impl From<Val> for Option<Buf> {
     fn from(v: Val) -> Self {
         match v {
             Val::Nil => None,
-            Val::Str(s) => Some(s),
-            _ => unreachable!(),
+            _ => Some(Buf::from(v)),
         }
     }
 }
